@@ -1,0 +1,15 @@
+//go:build verif
+
+package types
+
+import "math/big"
+
+// Verification hooks (build tag `verif` only): re-export the unexported difficulty calculator so that the
+// correspondence harness in /verif can compare it with its model on generated (time, parent) pairs and
+// generate headers carrying the expected difficulty.
+
+// VerifCalcDifficulty is makeDifficultyCalculator(DifficultyCalculatorParams)(time, parent), exactly as
+// verifyHeader calls it.
+func VerifCalcDifficulty(time uint64, parent *Header) *big.Int {
+	return makeDifficultyCalculator(big.NewInt(DifficultyCalculatorParams))(time, parent)
+}
